@@ -65,8 +65,13 @@ Fixpoint upd {A} (n : nat) (x : A) (l : list A) : list A :=
   | y :: l', S n' => y :: upd n' x l'
   end.
 
-Definition is_trk (p : param) : bool := match pty p with TTrk => true | _ => false end.
-Definition all_triv (L : list param) : bool := forallb (fun p => negb (is_trk p)) L.
+(* non-trivial copy/move constructor; non-trivial destructor *)
+Definition ntc (p : param) : bool := match pty p with TTrk | TTrkC => true | _ => false end.
+Definition ntd (p : param) : bool := match pty p with TTrk => true | _ => false end.
+(* ListTraits::IS_TRIVIALLY_{COPY,MOVE}_CONSTRUCTIBLE / IS_TRIVIALLY_DESTRUCTIBLE *)
+Definition all_ctriv (L : list param) : bool := forallb (fun p => negb (ntc p)) L.
+Definition all_dtriv (L : list param) : bool := forallb (fun p => negb (ntd p)) L.
+Definition all_triv (L : list param) : bool := all_ctriv L && all_dtriv L.
 Definition bidn (b : option nat) : nat := match b with Some n => n | None => O end.
 
 Definition slot (v : vec) (i : Z) : option Z := nth (Z.to_nat i) (t_slots (v_tbl v)) None.
@@ -117,7 +122,7 @@ Fixpoint store_from (L : list param) (prevs : list Z) (vals : list (list (list Z
   | p :: L', pt :: prevs', objs :: vals' =>
       let a' := align_if (pt <? pal p) (pal p) a in
       let m1 := mwrite m a' (concat objs) in
-      let evs := if is_trk p then obj_events (fun x => ECtor bid x (psz p)) a' (psz p) (length objs)
+      let evs := if ntc p then obj_events (fun x => ECtor bid x (psz p)) a' (psz p) (length objs)
                  else [] in
       let '(m2, evs2, e) := store_from L' prevs' vals' bid m1 (a' + Z.of_nat (length objs) * psz p) in
       (m2, evs ++ evs2, e)
@@ -141,13 +146,13 @@ Fixpoint destruct_fields (L : list param) (fl : list (Z * Z)) (bid : nat) (m : m
   match L, fl with
   | p :: L', (a, c) :: fl' =>
       let '(m2, evs2) := destruct_fields L' fl' bid
-                           (if is_trk p then scribble m a (psz p) (Z.to_nat c) (dead_bytes (psz p)) else m) in
-      ((m2, (if is_trk p then obj_events (fun x => EDtor bid x (psz p)) a (psz p) (Z.to_nat c) else []) ++ evs2))
+                           (if ntd p then scribble m a (psz p) (Z.to_nat c) (dead_bytes (psz p)) else m) in
+      ((m2, (if ntd p then obj_events (fun x => EDtor bid x (psz p)) a (psz p) (Z.to_nat c) else []) ++ evs2))
   | _, _ => (m, [])
   end.
 
 Definition destruct_elem (L : list param) (v : vec) (i : Z) : vec * list ev :=
-  if all_triv L then (v, [])
+  if all_dtriv L then (v, [])
   else
     let fl := fst (load L (v_fixed v) (v_mem v) (eaddr L v i)) in
     let '(m, evs) := destruct_fields L fl (bidn (v_bid v)) (v_mem v) in
@@ -230,9 +235,9 @@ Fixpoint move_objs (p : param) (bid : nat) (m : mem) (src dst : Z) (n : nat) : m
   | S n' =>
       let bs := mread m src (Z.to_nat (psz p)) in
       let m1 := mwrite m dst bs in
-      let m2 := if is_trk p then mwrite m1 src (moved_bytes (psz p)) else m1 in
+      let m2 := if ntc p then mwrite m1 src (moved_bytes (psz p)) else m1 in
       let '(m3, evs) := move_objs p bid m2 (src + psz p) (dst + psz p) n' in
-      (m3, (if is_trk p then [EMoveC bid dst (psz p) bid src] else []) ++ evs)
+      (m3, (if ntc p then [EMoveC bid dst (psz p) bid src] else []) ++ evs)
   end.
 
 Fixpoint move_fields (L : list param) (prevs : list Z) (fl : list (Z * Z)) (bid : nat) (m : mem) (a : Z)
@@ -270,7 +275,7 @@ Fixpoint move_forward_nt (L : list param) (v : vec) (from i : Z) (n : nat) : vec
   end.
 
 Definition move_forward (L : list param) (v : vec) (from to : Z) : vec * list ev :=
-  if all_triv L then move_forward_triv L v from to
+  if all_ctriv L && all_dtriv L then move_forward_triv L v from to
   else move_forward_nt L v from to (Z.to_nat (vsize L v - from)).
 
 (* ---------- pop_back, erase, clear (vector.hpp:183-225) ---------- *)
@@ -287,12 +292,12 @@ Definition erase (L : list param) (v : vec) (i : Z) : vec * list ev :=
 
 Definition erase_range (L : list param) (v : vec) (i j : Z) : vec * list ev :=
   let n := vsize L v in
-  let '(v1, e1) := if all_triv L then (v, []) else destruct_range L v i (Z.to_nat (j - i)) in
+  let '(v1, e1) := if all_dtriv L then (v, []) else destruct_range L v i (Z.to_nat (j - i)) in
   let '(v2, e2) := if (j <? n) && negb (i =? j) then move_forward L v1 j i else (v1, []) in
   (resize L v2 (n - (j - i)), e1 ++ e2).
 
 Definition clear (L : list param) (v : vec) : vec * list ev :=
-  let '(v1, e1) := if all_triv L then (v, []) else destruct_range L v 0 (Z.to_nat (vsize L v)) in
+  let '(v1, e1) := if all_dtriv L then (v, []) else destruct_range L v 0 (Z.to_nat (vsize L v)) in
   (resize L v1 0, e1).
 
 (* ---------- relocation into a new block: insert_into (vector.hpp:394-432) ---------- *)
@@ -315,7 +320,7 @@ Fixpoint relocate_fields (mv : bool) (L : list param) (fl : list (Z * Z)) (sbid 
   match L, fl with
   | p :: L', (a, c) :: fl' =>
       let '(ms1, m1, e1) :=
-        if is_trk p then relocate_objs mv p sbid bid ms m a (a + d) (Z.to_nat c) else (ms, m, []) in
+        if ntc p then relocate_objs mv p sbid bid ms m a (a + d) (Z.to_nat c) else (ms, m, []) in
       let '(ms2, m2, e2) := relocate_fields mv L' fl' sbid bid ms1 m1 d in
       (ms2, m2, e1 ++ e2)
   | _, _ => (ms, m, [])
@@ -341,10 +346,13 @@ Definition insert_into (mv destr : bool) (L : list param) (src : vec) (bid : nat
   let used := dend L src in
   let m0 := mcopy (v_mem src) 0 junk 0 used in
   let raw := [ERaw bid 0 used] in
-  if all_triv L then (src, m0, raw)
+  (* IS_TRIVIAL && (!IsDestruct || IS_TRIVIALLY_DESTRUCTIBLE) (vector.hpp:401) *)
+  if all_ctriv L && (negb destr || all_dtriv L) then (src, m0, raw)
   else
-    let '(src1, m1, e1) := relocate_elems mv L src bid m0 0 (Z.to_nat (vsize L src)) in
-    let '(src2, e2) := if destr then destruct_range L src1 0 (Z.to_nat (vsize L src1)) else (src1, []) in
+    let '(src1, m1, e1) := if all_ctriv L then (src, m0, [])
+                           else relocate_elems mv L src bid m0 0 (Z.to_nat (vsize L src)) in
+    let '(src2, e2) := if destr && negb (all_dtriv L)
+                       then destruct_range L src1 0 (Z.to_nat (vsize L src1)) else (src1, []) in
     (src2, m1, raw ++ e1 ++ e2).
 
 (* relocating locator constructor (elementLocator.hpp:50-59, 250-255): the table of a
@@ -384,7 +392,7 @@ Definition reserve (L : list param) (v : vec) (n b : Z) (junk : mem) (bid tbid :
 (* ---------- destructor (vector.hpp:156-159, 585-591; allocator.hpp:96-99) ---------- *)
 Definition destroy (L : list param) (v : vec) : list ev :=
   let '(v1, e1) := match v_bid v with
-                   | Some _ => if all_triv L then (v, [])
+                   | Some _ => if all_dtriv L then (v, [])
                                else destruct_range L v 0 (Z.to_nat (vsize L v))
                    | None => (v, []) end in
   e1 ++ dealloc_tbl L v ++ dealloc_mem L v.
